@@ -45,6 +45,31 @@ Theorem C11_numbers_kill_restart c crit c' crit' t0 off ops1 k ops2 ops3 :
           = written ops1 ++ acked x1 ops2 ++ written ops3.
 Proof. exact (numbers_kill_restart_partial c crit c' crit' t0 off ops1 k ops2 ops3). Qed.
 
+Require Import FL.Flw.NumDInv FL.Flw.NumDRun FL.Flw.NumDTheorems FL.Flw.NumDRestart FL.Flw.NumDKill.
+(* the same for NumbersDirect naming *)
+Theorem C11_numbersdirect_kill_keeps_acked c crit t0 off ops1 k ops2 :
+  numdcfg c crit -> c_cap c = None -> Forall basic_op ops1 -> Forall basic_op ops2 ->
+  let x1 := fst (run (sys0 t0 off) (OStart c :: ops1 ++ [OSetKill k])) in
+  let xe := fst (run (sys0 t0 off) (OStart c :: ops1 ++ [OSetKill k] ++ ops2 ++ [OCrash])) in
+  exists files,
+    direct_view c (wfs (s_w xe)) files
+    /\ concat files = written ops1 ++ acked x1 ops2.
+Proof. exact (numbersdirect_kill_keeps_acked c crit t0 off ops1 k ops2). Qed.
+
+(* NumbersDirect naming: restart after the kill *)
+Theorem C11_numbersdirect_kill_restart c crit c' crit' t0 off ops1 k ops2 ops3 :
+  numdcfg c crit -> c_cap c = None -> numdcfg c' crit' -> c_spec c' = c_spec c ->
+  Forall basic_op ops1 -> Forall basic_op ops2 -> Forall basic_op ops3 ->
+  (N.of_nat (S (length ops1 + length ops2)) <= u32_max)%N ->
+  let x1 := fst (run (sys0 t0 off) (OStart c :: ops1 ++ [OSetKill k])) in
+  let xk := fst (run (sys0 t0 off) (OStart c :: ops1 ++ [OSetKill k] ++ ops2 ++ [OCrash])) in
+  let r2 := run xk (OStart c' :: ops3 ++ [OStop]) in
+  Forall obs_ok (snd r2)
+  /\ exists files,
+       direct_view c' (wfs (s_w (fst r2))) files
+       /\ concat files = written ops1 ++ acked x1 ops2 ++ written ops3.
+Proof. exact (numbersdirect_kill_restart_partial c crit c' crit' t0 off ops1 k ops2 ops3). Qed.
+
 Check C11_dead_no_effect. Check C11_kill_point. Check C11_alive_effect.
 Print Assumptions C11_dead_no_effect.
 Print Assumptions C11_alive_effect.
@@ -53,3 +78,7 @@ Check C11_numbers_kill_keeps_acked.
 Print Assumptions C11_numbers_kill_keeps_acked.
 Check C11_numbers_kill_restart.
 Print Assumptions C11_numbers_kill_restart.
+Check C11_numbersdirect_kill_keeps_acked.
+Print Assumptions C11_numbersdirect_kill_keeps_acked.
+Check C11_numbersdirect_kill_restart.
+Print Assumptions C11_numbersdirect_kill_restart.
